@@ -575,7 +575,7 @@ pub fn run_server(args: &Args) -> Out {
         let v: Value = serde_json::from_str(&std::fs::read_to_string(p).ok()?).ok()?;
         v["replay"]["case"].as_u64().map(|x| x as usize)
     });
-    for idx in 0..args.n(32, 320) {
+    for idx in 0..args.n(32, 192) {
         if let Some(o) = only {
             if o != idx {
                 continue;
@@ -716,7 +716,7 @@ fn server_case(seed: u64, idx: usize, thorough: bool, bin: &str, rt: &std::sync:
     // every deletion, then a seeded sample of the rest
     let (mut chosen, mut rest): (Vec<Fault>, Vec<Fault>) = faults.drain(..).partition(|f| matches!(f, Fault::Delete { .. }));
     rng.shuffle(&mut rest);
-    chosen.extend(rest.into_iter().take(if thorough { 60 } else { 10 }));
+    chosen.extend(rest.into_iter().take(if thorough { 40 } else { 10 }));
     let (mut refused, mut intact, mut excluded) = (0u64, 0u64, 0u64);
     for f in &chosen {
         let mut s2 = Srv::new(cfg.clone(), bin, rt.clone());
